@@ -42,7 +42,11 @@ func genPayload(t *tape.Tape, big bool) []byte {
 	case 1:
 		n = t.Choose(64, "payload.n")
 	default:
-		if big {
+		if big && t.Bool(1, 6, "payload.huge") {
+			// around 1 MiB: where an implementation might switch to another
+			// way of assembling the message
+			n = []int{1<<20 - 1, 1 << 20, 1<<20 + 17}[t.Choose(3, "payload.huge.n")]
+		} else if big {
 			if t.Bool(1, 2, "payload.big.b") {
 				n = payloadLensBig[t.Choose(2, "payload.bigb")]
 			} else {
@@ -113,7 +117,16 @@ func genSpec(t *tape.Tape, o SpecOpts) *MsgSpec {
 	}
 	lo := LayerOpts{MaxExtra: o.MaxExtra, Steer: true, Big: o.BigOK, Tagged: o.TaggedProtected}
 	if s.Kind == refcose.KSignTagged {
-		s.Layer = genLayer(t, lo) // body layer carries no alg
+		s.Layer = genLayer(t, lo) // body layer: usually no alg
+		if t.Bool(1, 8, "spec.body.alg") {
+			// nothing forbids an alg parameter in the body header of a
+			// COSE_Sign (some issuers state a "default" there); it governs no
+			// signature - each signer's own header and verifier do
+			blo := lo
+			a := []int64{-7, -8, -35, -36, -37}[t.Choose(5, "spec.body.alg.v")]
+			blo.Alg = &a
+			s.Layer = genLayer(t, blo)
+		}
 		n := 1 + t.Choose(max(1, o.MaxSigner), "spec.nsig")
 		for i := 0; i < n; i++ {
 			k := genKey(t, o.Cheap || n > 2)
